@@ -2311,6 +2311,13 @@ class MySQLDDLCompiler(
         self, drop: ddl.DropConstraint, **kw: Any
     ) -> str:
         constraint = drop.element
+        if constraint.name is None and not isinstance(
+            constraint, sa_schema.PrimaryKeyConstraint
+        ):
+            raise exc.CompileError(
+                "Can't emit DROP CONSTRAINT for constraint %r; "
+                "it has no name" % drop.element
+            )
         if isinstance(constraint, sa_schema.ForeignKeyConstraint):
             qual = "FOREIGN KEY "
             const = self.preparer.format_constraint(constraint)
